@@ -67,6 +67,14 @@ func (p *pkgCtx) fftParam(f *ast.File, inBase bool, te ast.Expr, q *param) {
 			}
 		}
 	}
+	if id, ok := te.(*ast.Ident); ok && id.Name == "Decimation" && !inBase {
+		q.isInt = true // DIT = 0, DIF = 1 (scanIota)
+	}
+	if el, ok := te.(*ast.Ellipsis); ok {
+		if id, ok := el.Elt.(*ast.Ident); ok && id.Name == "Option" && !inBase {
+			q.isOpts = true
+		}
+	}
 	if ct, ok := te.(*ast.ChanType); ok {
 		if st, ok := ct.Value.(*ast.StructType); ok && len(st.Fields.List) == 0 {
 			q.isChan = true
@@ -246,6 +254,9 @@ func (x *tr) fftAssign(s *state, st *ast.AssignStmt) bool {
 	if len(st.Lhs) != 1 || len(st.Rhs) != 1 {
 		return false
 	}
+	if x.topAssign(s, st) {
+		return true
+	}
 	id, ok := st.Lhs[0].(*ast.Ident)
 	if !ok {
 		return false
@@ -289,6 +300,9 @@ func (x *tr) fftAssign(s *state, st *ast.AssignStmt) bool {
 
 // fftCall: fr.Butterfly(&a, &b) and v.Mul(v1, v2) on views
 func (x *tr) fftCall(s *state, c *ast.CallExpr) bool {
+	if x.topCall(s, c) {
+		return true
+	}
 	se, ok := c.Fun.(*ast.SelectorExpr)
 	if !ok {
 		return false
@@ -409,7 +423,7 @@ type fftPkgCfg struct {
 }
 
 func fftPkg(name, dir, base string, kers ...int) fftPkgCfg {
-	return fftPkgCfg{towerPkg{name: name, dir: dir, baseDir: base, ext: "fft", files: []string{"fft.go", "kernel_purego.go"}}, kers}
+	return fftPkgCfg{towerPkg{name: name, dir: dir, baseDir: base, ext: "fft", files: []string{"fft.go", "kernel_purego.go"}, specRecv: "Domain"}, kers}
 }
 
 var fftPkgs = []fftPkgCfg{
@@ -492,6 +506,8 @@ func runFFT(want map[string]bool) (all, failures []string) {
 				target(fn, n, max(n>>3, 1), map[string]int64{"twiddlesStartStage": 3, "stage": 0, "maxSplits": -1, "nbTasks": 1})
 			}
 		}
+		checkTopText(cfg.towerPkg)
+		p.runTop(label, ps, want, &all, &failures)
 		p.emit()
 		sum[cfg.name] = ps
 		fmt.Fprintf(os.Stderr, "gvgoslp: %-22s %3d functions translated (%d defs), %d untranslatable\n", label, len(ps.Translated), len(p.order), len(ps.Untranslated))
